@@ -53,4 +53,30 @@ theorem typeDef_inner_clean (n : Name) (t : TypeDef) (h : typeInnerClean n t = t
       map_eq_self _ _ fun v hv => enumValue_clean n v ((List.all_eq_true.mp h.1.2) v hv),
       inputValues_clean n t.inputs h.2]
 
+/-- the arguments of the field are clean: stripping the field only filters its own directive list -/
+theorem field_args_clean (n : Name) (f : FieldDef) (h : f.args.all (ivClean n) = true) :
+    field n f = { f with dirs := dirs n f.dirs } := by
+  unfold field
+  rw [inputValues_clean n f.args h]
+
+/-- an object type whose field arguments, enum values and input fields are clean -/
+def objectInnerClean (n : Name) (t : TypeDef) : Bool :=
+  t.fields.all (fun f => f.args.all (ivClean n)) && t.values.all (enumValueClean n) && t.inputs.all (ivClean n)
+
+theorem map_congr' {α β} (f g : α → β) (l : List α) (h : ∀ x ∈ l, f x = g x) : l.map f = l.map g := by
+  induction l with
+  | nil => rfl
+  | cons a as ih =>
+    simp only [List.map_cons]
+    rw [h a (by simp), ih (fun x hx => h x (by simp [hx]))]
+
+theorem typeDef_object_clean (n : Name) (t : TypeDef) (h : objectInnerClean n t = true) :
+    typeDef n t = { t with dirs := dirs n t.dirs, fields := t.fields.map fun f => { f with dirs := dirs n f.dirs } } := by
+  simp only [objectInnerClean, Bool.and_eq_true] at h
+  unfold typeDef
+  rw [map_congr' (field n) (fun f => { f with dirs := dirs n f.dirs }) t.fields
+        (fun f hf => field_args_clean n f ((List.all_eq_true.mp h.1.1) f hf)),
+      map_eq_self _ _ fun v hv => enumValue_clean n v ((List.all_eq_true.mp h.1.2) v hv),
+      inputValues_clean n t.inputs h.2]
+
 end NitroVerif.Strip
